@@ -46,17 +46,21 @@ static int g_nalloc;              /* alloc() calls of qmail-queue.c so far in th
 static const long uids[4] = { 1000, 7790 /* alias */, 7791 /* qmaild */, 7796 /* qmails */ };
 
 /* qmail-queue.c is compiled with -Dmalloc=qq_malloc (alloc.h: #define alloc(x) malloc(x)), nothing else is */
+static void *g_allocs[16];       /* what the program allocated in the current run (it never frees; released by the next world()) */
 void *qq_malloc(size_t n) {
   int k = ++g_nalloc;
   if (sim_on && g_setup == -10 - k) return 0;
   if (sim_on && g_setup == -20 - k) sim_deliver_signal(sim_cur, SIGBUS);
-  return malloc(n);
+  void *r = malloc(n);
+  if (k <= 16) g_allocs[k - 1] = r;
+  return r;
 }
 
 static void world(const unsigned char *msg, size_t mn, const unsigned char *env, size_t en, int chunk) {
   char b[64];
   sim_reset();
   sim_globals_restore();
+  for (int i = 0; i < 16; i++) { free(g_allocs[i]); g_allocs[i] = 0; }
   g_nalloc = 0;
   { uint64_t h = fnv(msg, mn) ^ (fnv(env, en) * 0x9e3779b97f4a7c15ull);
     g_uid = uids[h & 3]; g_pid = 1 + (long)((h >> 8) % 99999); g_clock = (long)((h >> 24) % 4102444800ull); }
